@@ -68,8 +68,8 @@ def expected_files(mt, base):
         elif False:
             pass
         elif t.kind == 'list_numpy':
-            out.add(f'{d}/{t.key}/0.npy')
-            out.add(f'{d}/{t.key}/1.npy')
+            for k_ in range(12):   # (the engine's list-of-arrays results have twelve elements)
+                out.add(f'{d}/{t.key}/{k_}.npy')
         else:
             out.add(f'{d}/{t.key}/v.txt')
             out.add(f'{d}/{t.key}/sub/w.bin')
